@@ -2042,3 +2042,94 @@ fn st_recv_unsuback_v5() {
     suback_like(3)
 }
 
+
+// =================================================================== lighter variants (the 3-packet / 2-binding forms exceed 12-23 GB)
+// restore_packets with two packets of different kinds: order, wait sets, ids
+fn restore_pair(v5: bool, first_q2: bool) {
+    let mut c = CC::new(v311_or_v5(v5));
+    let i: u16 = kani::any();
+    let k: u16 = kani::any();
+    kani::assume(i != 0 && k != 0 && i != k);
+    let mut v: Vec<GenericStorePacket<u16>> = Vec::new();
+    let q = if first_q2 { 2 } else { 1 };
+    if v5 {
+        v.push(mk_pub5(q, i, true).try_into().unwrap());
+        v.push(v5_0::GenericPubrel::<u16>::builder().packet_id(k).build().unwrap().try_into().unwrap());
+    } else {
+        v.push(mk_pub311(q, i, true).try_into().unwrap());
+        v.push(mk_pubrel311(k).try_into().unwrap());
+    }
+    c.restore_packets(v);
+    assert!(sth::len(&c.store) == 2 && sth::id_at(&c.store, 0) == Some(i) && sth::id_at(&c.store, 1) == Some(k), "[C16] restored packets keep their order");
+    assert!(c.pid_man.is_used_id(i) && c.pid_man.is_used_id(k), "[C16] restored identifiers are in use");
+    if first_q2 {
+        assert!(c.pid_pubrec.contains(&i) && c.pid_puback.len() == 0, "[C16] a restored QoS2 PUBLISH waits for PUBREC");
+    } else {
+        assert!(c.pid_puback.contains(&i) && c.pid_pubrec.len() == 0, "[C16] a restored QoS1 PUBLISH waits for PUBACK");
+    }
+    assert!(c.pid_pubcomp.contains(&k) && c.pid_pubcomp.len() == 1, "[C16] a restored PUBREL waits for PUBCOMP");
+    assert!(c.register_packet_id(i).is_err() && c.register_packet_id(k).is_err(), "[C16] restored identifiers cannot be registered again");
+    core::mem::forget(c);
+}
+#[kani::proof]
+#[kani::unwind(2)]
+#[kani::stub(core::str::from_utf8, utf8_model)]
+fn st_restore_pair_v311_q1() {
+    restore_pair(false, false)
+}
+#[kani::proof]
+#[kani::unwind(2)]
+#[kani::stub(core::str::from_utf8, utf8_model)]
+fn st_restore_pair_v311_q2() {
+    restore_pair(false, true)
+}
+#[kani::proof]
+#[kani::unwind(2)]
+#[kani::stub(core::str::from_utf8, utf8_model)]
+fn st_restore_pair_v5_q1() {
+    restore_pair(true, false)
+}
+#[kani::proof]
+#[kani::unwind(2)]
+#[kani::stub(core::str::from_utf8, utf8_model)]
+fn st_restore_pair_v5_q2() {
+    restore_pair(true, true)
+}
+
+// manual alias re-binding with ONE earlier binding (the two-binding form exceeds 23 GB)
+#[kani::proof]
+#[kani::unwind(2)]
+#[kani::stub(core::str::from_utf8, utf8_model)]
+fn st_send_publish_v5_manual_alias_rebind1() {
+    set_detail(true);
+    let mut c = fam_client_connected(Version::V5_0);
+    let mut tas = TopicAliasSend::new(3);
+    let mut r: [u8; 4] = [0; 4];
+    let k1: u8 = kani::any();
+    let a1: u16 = kani::any();
+    kani::assume(k1 <= 1 && a1 >= 1 && a1 <= 3);
+    tas.insert_or_update(topic_of(k1), a1);
+    r[a1 as usize] = byte_of(k1);
+    c.topic_alias_send = Some(tas);
+    let kx: u8 = kani::any();
+    let ax: u16 = kani::any();
+    kani::assume(kx <= 1 && ax >= 1 && ax <= 3);
+    kani::cover!(kx == k1 && ax != a1, "the same topic gets a second alias");
+    kani::cover!(kx != k1 && ax == a1, "the alias is re-bound to another topic");
+    let p = mk_pub5_alias(byte_of(kx), ax).unwrap();
+    let pre = tm_of(&c);
+    let ev = c.process_send_v5_0_publish(p);
+    monitor(pre, &ev, &c);
+    let e = sm(&ev, 0);
+    assert!(is_send(&e) && e.pkt.alias == ax && !e.pkt.topic_empty && e.pkt.topic0 == byte_of(kx), "[C13] the PUBLISH goes out with its topic and the alias");
+    r[ax as usize] = byte_of(kx);
+    let t = c.topic_alias_send.as_ref().unwrap();
+    let mut q: u16 = 1;
+    while q <= 3 {
+        let got = t.peek(q).map(|s| s.as_bytes()[0]).unwrap_or(0);
+        assert!(got == r[q as usize], "[C13] sender-side alias table equals the bindings the receiver holds");
+        q += 1;
+    }
+    core::mem::forget(ev);
+    core::mem::forget(c);
+}
